@@ -128,7 +128,7 @@ ADDENDA = {
     "C03": "Later additions: BinaryOpBase.match decided as a table of 26 rows (operands ending in a dot, excluded operators, split side). Also: BinaryOpBase rows with operand classes that refuse their text; no literal with a signed exponent stays visible after the replace map (R10); expressions parsed all the way down by interpretation, 307 operator pairs grouped as the precedence table requires (R11; the 7 F13 expressions are echoed as known). Round 6: no intrinsic operator level claims any other dotted word of up to 3/4 letters (R3).",
     "C04": "Later additions: continuation rows for lines that begin with digits / name: (never a label or construct name) and blank lines. Also: the continuation loop interpreted over multi-line statements; layout widening of every blank and upper-casing of 354 samples (R10, 1311 texts; found and fixed F58, F59); the standard's optional-blank keyword pairs (R11, 30 pairs; found and fixed F60, F61). Round 6: The reader by interpretation on generated layouts (FortranStringReader/FortranFileReader, sourceinfo and splitline interpreted from the AST on sources rendered from 3 statement lists; the expected items are known by construction): free form detected and the same statements (text, label, name; names keep their spelling) under 13 layouts (R12; found and fixed F65, F69). Reader and parser together on whole programs: six free-form layouts of the sample programs give the tree and text of the plain layout (R13).",
     "C05": "Later additions: fixed-form continuation table (R9), inline-comment table (R10), and no memoised function on the "
-           "format-detection / reading path reads the file system (R11, 83 functions). Also: open-literal state across comment/blank lines in the fixed-form continuation table. Round 6: The reader by interpretation on generated layouts (FortranStringReader/FortranFileReader, sourceinfo and splitline interpreted from the AST on sources rendered from 3 statement lists; the expected items are known by construction) in fixed form under 11 layouts, a 70k/150k-character file by name and as file object, '&' followed by blanks and labelled free-form lines in the detector table (R12; found and fixed F66, F69; 2 known findings F67, F73). Reader and parser together on whole programs: five fixed-form layouts are read as fixed form and give the tree and text of the free-form program (R13). Round 7: a named case for a short line that ends with a word and a continuation from column 7 (known F73, found by R13 on a new sample).",
+           "format-detection / reading path reads the file system (R11, 83 functions). Also: open-literal state across comment/blank lines in the fixed-form continuation table. Round 6: The reader by interpretation on generated layouts (FortranStringReader/FortranFileReader, sourceinfo and splitline interpreted from the AST on sources rendered from 3 statement lists; the expected items are known by construction) in fixed form under 11 layouts, a 70k/150k-character file by name and as file object, '&' followed by blanks and labelled free-form lines in the detector table (R12; found and fixed F66, F69; 2 known findings F67, F73). Reader and parser together on whole programs: five fixed-form layouts are read as fixed form and give the tree and text of the free-form program (R13). Round 7: a named case for a short line that ends with a word and a continuation from column 7 (known F73, found by R13 on a new sample). Round 8: the detector on a file object that has already been read from (whole file judged, position restored).",
     "C06": "Later additions: accessor indices within matcher arity (R19, 176 sites); block engine addresses the opening statement by "
            "start_idx (R20); no dereference on a path on which the variable is None for certain (R21, path-sensitive, 40 functions, 1 reviewed exception). Also: the process-terminating name-mismatch path of the block engine is enabled for the eight program-unit blocks only (R22); the reader's item constructors agree on recorded state (R23). Round 6: Base.__new__ interpreted on four synthetic registries whose alternatives lead back to a class being tried: NoMatchError, never unbounded recursion (R24). Whole programs by interpretation (reader, Base.__new__, BlockBase.match, block classes, statement matchers, symbol tables and printers interpreted; 22 sample programs): 33 hand-written and 14/160 generated malformed sources (token mutants of the samples) end in a tree or FortranSyntaxError (R25). Round 7: a raise under a length test of the text alone is a precondition on the callers, decided by interpreting every matcher that names the class on 980 probe texts (R3; F5 was repaired in the callers and is decided this way).",
     "C07": "Later additions: definite-None dereference on clean-up paths (R10); the statement ends where the continuation table says (R11). Round 6: at the moment a statement is delivered the interpreted reader's line counter and quoted line are the statement's last physical line, on every free-form layout (R12). Whole programs by interpretation (reader, Base.__new__, BlockBase.match, block classes, statement matchers, symbol tables and printers interpreted; 22 sample programs): every statement line replaced by non-Fortran text is reported at that line with that text (R13).",
@@ -137,10 +137,10 @@ ADDENDA = {
            "(R11, 24 bindings); the table registry is wiped as a whole only by ParserFactory.create (R12). Also: memo purity extended to process-wide parser state (R13, 742 functions). Round 6: what BlockBase.match returned is final in its 35 callers -- no raise / other return afterwards unless the table is removed (R14). The symbol-table module against a reference model (R15); Whole programs by interpretation (reader, Base.__new__, BlockBase.match, block classes, statement matchers, symbol tables and printers interpreted; 22 sample programs): nothing left after a failed parse except the known F16 tables, next parse as fresh (R16).",
     "C10": "Round 6: nodes compare by value, so no parser code looks a node up in a collection by equality (list.remove/index/count/in; R9). Whole programs by interpretation (reader, Base.__new__, BlockBase.match, block classes, statement matchers, symbol tables and printers interpreted; 22 sample programs): each node once, parent = holder, walk() in source order (R10).",
     "C11": "Later additions: a strict_order block lists only comment-absorbing parts (R11). Also: no reader method calls self.put_item() on an item it discovers (R6); give-back is last-in first-out on every path (R12, path-sensitive stack). Round 6: comments through the interpreted reader: once, text/line/inline flag/place, also with conditional lines or directive processing enabled; ignored = removed (R13); block printers with banner comments (R14); no parser code overrides the reader's comment option (R15). Whole programs by interpretation (reader, Base.__new__, BlockBase.match, block classes, statement matchers, symbol tables and printers interpreted; 22 sample programs): comments once, unchanged, in place; ignored = removed (R16). Give-back completeness (R17 = C08.R18); the consumed=>restored typestate covers helper functions.",
-    "C12": "Later additions: physical lines are newline-terminated lines only (R9, shared with C07.R5). Also: the ';' split decision is a function of the item alone (no loop-history flag). Round 6: the item stream through the interpreted reader on all free and fixed layouts: once, in order, exact spans, put_item() restores, get_item() at the end is None (R10). Give-back completeness (R11 = C08.R18).",
+    "C12": "Later additions: physical lines are newline-terminated lines only (R9, shared with C07.R5). Also: the ';' split decision is a function of the item alone (no loop-history flag). Round 6: the item stream through the interpreted reader on all free and fixed layouts: once, in order, exact spans, put_item() restores, get_item() at the end is None (R10). Give-back completeness (R11 = C08.R18). Round 8: the nested include reader gets every option of the including reader (R12 = C13.R1).",
     "C13": "Later additions: block engine addresses the opening statement by start_idx with includes collected before it (R6); the default "
            "include path is per reader, never a shared mutable (R7). Also: a found include file is always expanded (no early return guarded by a grow-only collection); memo purity of the include search (R8); strict-order blocks list only parts (R9). Round 6: INCLUDE through the interpreted reader on a virtual file system: first directory wins, nested include, fixed-form include files, unresolved include kept, read-ahead-and-restore consumer (R10; found F69). Whole programs by interpretation (reader, Base.__new__, BlockBase.match, block classes, statement matchers, symbol tables and printers interpreted; 22 sample programs) on a virtual file system: statements moved into an include file give the original tree; unresolved include kept as a node (R11).",
-    "C14": "Later additions: handle_cpp_directive interpreted in free, fixed and strict fixed form, with and without indentation of '#'; the source-form detector does not vote on directive lines (R10, 66 lines; found and fixed F47). Also: strict-order blocks list only parts (R11); match_cpp_directive interpreted on a model reader: each directive line of the oracle reaches the class the oracle names (R12). Round 6: 19 kinds of directive lines inserted into free and fixed layouts through the interpreted reader: one item each, in place, spliced text, detected form unchanged (R13; found and fixed F68). Whole programs by interpretation (reader, Base.__new__, BlockBase.match, block classes, statement matchers, symbol tables and printers interpreted; 22 sample programs): inserted directive lines kept once, unchanged, in order; rest of the text unchanged (R14).",
+    "C14": "Later additions: handle_cpp_directive interpreted in free, fixed and strict fixed form, with and without indentation of '#'; the source-form detector does not vote on directive lines (R10, 66 lines; found and fixed F47). Also: strict-order blocks list only parts (R11); match_cpp_directive interpreted on a model reader: each directive line of the oracle reaches the class the oracle names (R12). Round 6: 19 kinds of directive lines inserted into free and fixed layouts through the interpreted reader: one item each, in place, spliced text, detected form unchanged (R13; found and fixed F68). Whole programs by interpretation (reader, Base.__new__, BlockBase.match, block classes, statement matchers, symbol tables and printers interpreted; 22 sample programs): inserted directive lines kept once, unchanged, in order; rest of the text unchanged (R14). Round 8: without its directive nodes the tree is the tree of the original program, class by class and statement by statement (part nodes a directive is wrapped in or splits not counted); a directive between the DO statements of a shared-termination nest (1 known finding F74) (R14).",
     "C15": "Later additions: OMP continuation decision table incl. lines that continue an open character literal (R5). Also: the continuation loop interpreted over multi-line conditional statements; the nested include reader is given the conditional-line option (R6). Round 6: statements hidden behind the sentinel in free and fixed layouts through the interpreted reader: option on = same items, '!$omp' stays a comment; option off = comments (R7). Reader and parser together on whole programs: statements behind '!$ ' parse as without sentinel when enabled, as absent when disabled (R8).",
     "C16": "Later additions: the loops recording declared entities and ONLY-list names are total (R9: per-iteration must-pass-through, no break/return). Round 6: the loop recording declared entities is reached under the three confirmed guards only (R9). The symbol-table module interpreted against a reference model of scoping (R10). Whole programs by interpretation (reader, Base.__new__, BlockBase.match, block classes, statement matchers, symbol tables and printers interpreted; 22 sample programs): tables/nesting/symbols as the scoping units say, intrinsic references exactly where no enclosing scope declares the name (R11). Round 7: a BLOCK that is read twice after backtracking (non-block DO) still has exactly one table with its declaration (R11, sample blockdo; found and fixed F72); re-entering a nested table is accepted only for the same start-statement node (R3).",
     "C17": "Later additions: a 2008 matcher that re-calls the generic engine passes the 2003 matcher's option flags (R9c); 2008 printers "
